@@ -187,7 +187,18 @@ func phaseCache(r *vh.Rng, o *vh.Out, nseq, nops int) {
 		return c04lib.Hex(b)
 	}
 	for q := 0; q < nseq; q++ {
+		cacheSeq(r, o, h, nops, rb)
+	}
+}
+
+func cacheSeq(r *vh.Rng, o *vh.Out, h *cacheH, nops int, rb func() string) {
+	{
 		var trace []string
+		defer func() {
+			if rec := recover(); rec != nil {
+				o.Fail("cache-panic", fmt.Sprintf("the item cache panics: %v", rec), strings.Join(trace, "\n"))
+			}
+		}()
 		// spec: what a plain map would hold, committed and uncommitted; projection = code if present else vector
 		type val struct{ vec, code string }
 		live, disk := map[uint64]val{}, map[uint64]val{}
@@ -199,8 +210,8 @@ func phaseCache(r *vh.Rng, o *vh.Out, nseq, nops int) {
 			return c
 		}
 		emit := func(kind, line string) string {
-			impl := h.exec(line)
 			trace = append(trace, line)
+			impl := h.exec(line)
 			o.Emit(kind, line, impl, kind != "put" && kind != "del" && kind != "reset" && kind != "evict")
 			return impl
 		}
@@ -390,6 +401,7 @@ type runner struct {
 	ac      allCase
 	sim     *c04lib.Sim
 	shrinks int
+	curQ    *anyQuery
 }
 
 func (rn *runner) replayOf(q *anyQuery, what string) string {
@@ -757,6 +769,11 @@ func (rn *runner) compareAll(q anyQuery, refs []shardRef) {
 
 func (rn *runner) history(dir string, nb, nq int) {
 	o := rn.o
+	defer func() {
+		if rec := recover(); rec != nil {
+			o.Fail("shard-panic", fmt.Sprintf("panic while running a history: %v", rec), rn.replayOf(rn.curQ, "panic"))
+		}
+	}()
 	sim := c04lib.NewSim(dir, schemaAll(rn.ac.Cfgs), []string{"live", "disabled", "evicting", "lru", "mem"})
 	rn.sim = sim
 	defer sim.Close()
@@ -766,6 +783,8 @@ func (rn *runner) history(dir string, nb, nq int) {
 			continue
 		}
 		rn.ac.Batches = append(rn.ac.Batches, jb)
+		rn.curQ = nil
+		c04lib.Progress("applying a "+jb.Kind+" batch (the last one of this case)", rn.replayOf(nil, "batch"))
 		_, _, err := sim.Apply(jb.toBatch())
 		o.Stats["batch-"+jb.Kind]++
 		if err != nil {
@@ -781,6 +800,9 @@ func (rn *runner) history(dir string, nb, nq int) {
 			}
 		}
 		for _, q := range rn.genQueries(nq) {
+			q := q
+			rn.curQ = &q
+			c04lib.Progress("answering a "+q.Kind+" query on every shard", rn.replayOf(&q, "query"))
 			before := len(o.Oracle)
 			rn.compareAll(q, refs)
 			if len(o.Oracle) > before && rn.shrinks < 2 {
@@ -893,6 +915,7 @@ func main() {
 		doReplay(*replay)
 		return
 	}
+	c04lib.Isolate(*dir)
 	r := vh.NewRng(*seed)
 	o := vh.NewOut(*dir)
 	tmp, err := os.MkdirTemp("", "c08-")
